@@ -47,7 +47,7 @@ pub struct Prop {
 pub fn registry() -> Vec<Prop> {
     #[allow(unused_mut)]
     let mut v = vec![
-        Prop { id: "C04", run: c04::run, replay: c04::replay, rule: c04::RULE, full: false, child: None },
+        Prop { id: "C04", run: c04::run, replay: c04::replay, rule: c04::RULE, full: false, child: Some(c04::child) },
         Prop { id: "C05", run: c05::run, replay: c05::replay, rule: c05::RULE, full: false, child: None },
         Prop { id: "C06", run: c06::run, replay: c06::replay, rule: c06::RULE, full: false, child: None },
         Prop { id: "C07", run: c07::run, replay: c07::replay, rule: c07::RULE, full: false, child: None },
